@@ -3027,8 +3027,13 @@ class BSP:
 
     def static_prop_models(self) -> Iterator[str]:
         """Yield all model filenames used in static props."""
-        static_lump = BytesIO(self.get_game_lump(b'sprp'))
-        return self._read_static_props_models(static_lump)
+        try:
+            props: list[StaticProp] = self._parsed_lumps[LMP_ID_STATIC_PROPS]
+        except KeyError:
+            static_lump = BytesIO(self.get_game_lump(b'sprp'))
+            return self._read_static_props_models(static_lump)
+        # The props have been parsed, which discards the raw lump. Use their names instead.
+        return iter(dict.fromkeys(prop.model for prop in props))
 
     @staticmethod
     def _read_static_props_models(static_lump: BytesIO) -> Iterator[str]:
